@@ -32,8 +32,13 @@ def Params.set (ps : Params) (k v : Bytes) : Params :=
 def Params.get? (ps : Params) (k : Bytes) : Option Bytes :=
   (ps.find? (·.1 = k)).map (·.2)
 
+/-- what `addLeaf` compares to find an already registered leaf:
+    `strings.TrimLeft(segment.String(), "/?")` — the segment text without the slash and without
+    the optional mark ("/a/?b" also serves "/a/b", so the mark does not make a different route) -/
+def Segment.leafKey (s : Segment) : Bytes := s.elems.flatMap Elem.render
+
 structure Leaf where
-  key   : Bytes            -- `segment.String()`
+  key   : Bytes            -- `Segment.leafKey` of the segment it derives from
   pat   : Pat
   hid   : Nat              -- which registration (handler / header matcher / Route handle)
   route : Route            -- the route this leaf belongs to
@@ -70,7 +75,7 @@ def lastIsAll {α} (pat : α → Pat) (l : List α) : Bool :=
     ancestors, at most one match-all leaf, rank insertion -/
 def addLeafTo (E : Engine) (leaves : List Leaf) (ancBinds : List Bytes) (ancStatic : Bool)
     (r : Route) (s : Segment) (hid : Nat) (long : Bool) : Except RegErr (List Leaf) :=
-  if leaves.any (·.key = s.render) then .error .dupRoute
+  if leaves.any (·.key = s.leafKey) then .error .dupRoute
   else match classifyLeaf E s with
     | .error e => .error e
     | .ok pat =>
@@ -78,7 +83,7 @@ def addLeafTo (E : Engine) (leaves : List Leaf) (ancBinds : List Bytes) (ancStat
       else if pat.isAll && lastIsAll Leaf.pat leaves then .error .dupMatchAllSibling
       else
         let st := match pat with | .static _ => ancStatic | _ => false
-        .ok (insertByRank (fun l => l.pat.rank) ⟨s.render, pat, hid, r, long, st⟩ leaves)
+        .ok (insertByRank (fun l => l.pat.rank) ⟨s.leafKey, pat, hid, r, long, st⟩ leaves)
 
 def replaceNode (subs : List Node) (key : Bytes) (n : Node) : List Node :=
   subs.map fun m => if m.key = key then n else m
@@ -125,13 +130,14 @@ def addNext (E : Engine) (r : Route) (hid : Nat) :
             pure (insertByRank (fun n => n.pat.rank) (.mk s.render cpat csubs' cleaves') subs, leaves', false)
 
 /-- `AddRoute(t, r, h)` on the root; a route whose only segment is optional puts its short form,
-    the empty static leaf, on the root itself (before the long leaf) -/
+    the empty static leaf, on the root itself (before the long leaf) — unless the optional segment
+    has no element ("/?"): then both forms are the root path and there is only the long leaf -/
 def addRoute (E : Engine) (t : Node) (r : Route) (hid : Nat) : Except RegErr Node :=
   match t with
   | .mk k p subs leaves =>
     match r.segs with
     | [s] =>
-      if s.optional then do
+      if s.optional && !s.elems.isEmpty then do
         -- order of tree.go: duplicate/style checks of the long leaf, then the short leaf, then insert
         let _ ← addLeafTo E leaves [] true r s hid true
         let l1 ← addLeafTo E leaves [] true r ⟨false, []⟩ hid false
